@@ -44,6 +44,19 @@ CHECKS = {
         design_ref="DESIGN.md section 3 C13, section 8.4g",
         technique="access-path identity of arguments (field-to-parameter agreement); must-pass-through on MIR CFG; small arithmetic shape match",
     ),
+    "C16": dict(
+        category="other",
+        text="Decides the structure every clock-domain verdict goes through: check_clock_domain reports mismatch_clock_domain exactly "
+             "when compatible(lhs.clock_domain, rhs.clock_domain) is false and no unsafe(cdc) covers the site's token (both directions, "
+             "over all CFG paths); every hand-written classification of ClockDomain (compatible, merge, domain_id, Display) sends Explicit "
+             "and Inferred to the same arm and == on domains is used only against payload-free variants; the operator typing functions "
+             "check every operand pair (binary x-y; ternary x-y, x-z, y-z; concatenation element vs accumulated result) and merge every "
+             "operand's domain into the result; check_assign_clock_domain checks destination vs source, clock and every condition domain; "
+             "each of 12 lowering functions (frozen table, one reason each) still reaches the check. It does not decide that domain "
+             "inference assigns the right domain to every signal, nor that the table of lowering functions is complete for future constructs.",
+        design_ref="DESIGN.md section 3 C16, section 8.4h",
+        technique="must-facts both directions on the kernel's CFG; enum-arm equivalence; argument-pair coverage; provenance of the propagated domain; who-must-call table",
+    ),
     "C24": dict(
         category="other",
         text="Decides the run-to-run determinism sources on the build path: every iteration over a RandomState-hashed "
